@@ -33,7 +33,6 @@ use ckb_types::core::error::{OutPointError, TransactionError, TransactionErrorSo
 use ckb_types::core::hardfork::{CKB2021, CKB2023, HardForks};
 use ckb_types::core::{
     Capacity, DepType, EpochNumberWithFraction, HeaderBuilder, HeaderView, ScriptHashType, TransactionBuilder, TransactionInfo,
-    TransactionView,
 };
 use ckb_types::packed::{Byte32, CellDep, CellInput, CellOutput, OutPoint, OutPointVec, Script};
 use ckb_types::prelude::*;
@@ -457,7 +456,8 @@ fn gen_time(rng: &mut Rng) -> Vec<String> {
     };
     let median = *rng.pick(&[1u64, 2, 3, 4, 5, 11, 37]);
     let n = rng.range(1, 24);
-    let e0 = if rng.chance(1, 8) { (1 << 24) - 3 } else { rng.below(4) };
+    let e0 = if rng.chance(1, 8) { (1 << 24) - 2 - (n + l) / l } else { rng.below(4) };
+    let _ = n;
     let off = rng.below(l);
     let base_ts = if rng.chance(1, 5) { rng.range(0, 5000) } else { 1_600_000_000_000 + rng.below(1_000_000) };
     let step = *rng.pick(&[1u64, 7, 1000, 8000]);
@@ -509,7 +509,7 @@ fn gen_time(rng: &mut Rng) -> Vec<String> {
         if ts.is_empty() { 0 } else { ts[ts.len() / 2] }
     };
     let now = med(commit_parent);
-    let mut gen_info = |rng: &mut Rng| -> Option<Info> {
+    let gen_info = |rng: &mut Rng| -> Option<Info> {
         if rng.chance(1, 8) {
             return None;
         }
@@ -730,7 +730,11 @@ fn exec_resolve(lines: &[String], out: &mut Out) {
                 let ins: Vec<OutPoint> = plist(t[1]).iter().map(|s| parse_op(s)).collect();
                 let deps: Vec<(bool, OutPoint)> = plist(t[2]).iter().map(|s| (s.starts_with('g'), parse_op(&s[1..]))).collect();
                 let hd: Vec<u64> = plist(t[3]).iter().map(|s| pnum(s)).collect();
+                let nwit = pnum(t[4]);
                 let mut tb = TransactionBuilder::default();
+                for _ in 0..nwit {
+                    tb = tb.witness(Bytes::new().pack());
+                }
                 for op in &ins {
                     tb = tb.input(CellInput::new(op.clone(), 0));
                 }
@@ -768,7 +772,7 @@ fn exec_resolve(lines: &[String], out: &mut Out) {
                     }
                 };
                 let usable = |k: &(u64, u64)| -> bool { !seen_before.contains(&op_of(k.0, k.1)) && matches!(status(k), SpecSt::Live(_)) };
-                let cellbase = ins.len() == 1 && ins[0].is_null();
+                let cellbase = ins.len() == 1 && ins[0].is_null() && nwit == 1;
                 let in_ids: Vec<(u64, u64)> = ins.iter().map(op_ids).collect();
                 let mut ok = true;
                 if !cellbase {
@@ -917,7 +921,8 @@ fn gen_resolve(rng: &mut Rng) -> Vec<String> {
         }
         let hd: Vec<String> = (0..rng.below(3)).map(|_| rng.range(1, 5).to_string()).collect();
         let j = |l: &Vec<String>| if l.is_empty() { "-".to_string() } else { l.join(",") };
-        v.push(format!("tx {} {} {}", j(&ins), j(&deps), j(&hd)));
+        let nwit = if ins.len() == 1 && rng.chance(4, 5) { 1 } else { rng.below(3) };
+        v.push(format!("tx {} {} {} {}", j(&ins), j(&deps), j(&hd), nwit));
     }
     v
 }
@@ -1062,7 +1067,7 @@ pub fn run(opts: &Opts) {
     let default_hook = std::panic::take_hook();
     std::panic::set_hook(Box::new(move |info| {
         let msg = info.to_string();
-        if msg.contains("attempt to") || msg.contains("denominator == 0") || msg.contains("header exist") || msg.contains("block exist") {
+        if std::env::var("VERIF_SHOW_PANIC").is_err() && msg.contains("attempt to") || msg.contains("denominator == 0") || msg.contains("header exist") || msg.contains("block exist") {
             return;
         }
         default_hook(info);
